@@ -54,6 +54,11 @@ func (tb *TB) Prelude() {
 	tb.AddAxiom("str-sub-sub", tb.Quant(true, []*Term{s, i, j, k, l},
 		tb.Implies(tb.And(okRange, tb.Le(z, k), tb.Le(k, l), tb.Le(l, tb.Sub(j, i))),
 			tb.Eq(ssub(ssub(s, i, j), k, l), ssub(s, tb.Add(i, k), tb.Add(i, l)))), ssub(ssub(s, i, j), k, l)))
+	// cat / sub interplay (instances of extensionality)
+	cab := scat(a, b)
+	tb.AddAxiom("str-cat-sub-left", tb.Quant(true, []*Term{a, b}, tb.Eq(ssub(cab, z, slen(a)), a), cab))
+	tb.AddAxiom("str-cat-sub-right", tb.Quant(true, []*Term{a, b}, tb.Eq(ssub(cab, slen(a), slen(cab)), b), cab))
+	tb.AddAxiom("str-cat-empty", tb.Quant(true, []*Term{a}, tb.And(tb.Eq(scat(a, tb.Const("s_empty", "Str")), a), tb.Eq(scat(tb.Const("s_empty", "Str"), a), a)), scat(a, tb.Const("s_empty", "Str")), scat(tb.Const("s_empty", "Str"), a)))
 	// Go division/modulo (truncated)
 	x := tb.BoundVar("x", "Int")
 	y := tb.BoundVar("y", "Int")
@@ -188,6 +193,7 @@ func (so *Sorts) structSort(t types.Type, st *types.Struct) string {
 	for i := 0; i < st.NumFields(); i++ {
 		f := st.Field(i)
 		fields = append(fields, fmt.Sprintf("(%s %s)", so.FieldAcc(name, f.Name(), i), so.Sort(f.Type())))
+		so.tb.RegisterAccessor(so.FieldAcc(name, f.Name(), i), "mk_"+name, i)
 	}
 	so.structs[name] = st
 	so.named[name] = t
